@@ -8,7 +8,7 @@ From Coq Require Import List Arith Bool String Ascii.
 From Naunet Require Import Lib.ListX Lib.PyStr.
 Import ListNotations.
 
-Inductive sym := C (c : ascii) | M (i : nat).
+Inductive sym := C (c : ascii) | M (i : nat) | N (i : nat).   (* character, magnitude atom, identifier atom *)
 Definition txt := list sym.
 Definition tx (s : string) : txt := map C (chars s).
 
@@ -30,12 +30,13 @@ Definition beautify (s : txt) : txt :=
   sreplace2 "-" "+" "-" (sreplace2 "+" "-" "-" (sreplace2 "-" "-" "+" (sreplace2 "+" "+" "+" s))).
 
 (* the text with the magnitudes written out *)
-Definition flatten (mag : nat -> list ascii) (s : txt) : list ascii :=
-  flat_map (fun x => match x with C c => [c] | M i => mag i end) s.
+Definition flatten_with (mag name : nat -> list ascii) (s : txt) : list ascii :=
+  flat_map (fun x => match x with C c => [c] | M i => mag i | N i => name i end) s.
+Definition flatten (mag : nat -> list ascii) (s : txt) : list ascii := flatten_with mag (fun _ => []) s.
 
 (** ** C tokens *)
 Inductive tok :=
-| TId (s : list ascii) | TNum (s : list ascii) | TMag (i : nat) | TOp (c : ascii) | TGe | TBad.
+| TId (s : list ascii) | TNum (s : list ascii) | TMag (i : nat) | TName (i : nat) | TOp (c : ascii) | TGe | TBad.
 
 Definition is_opchar (c : ascii) : bool :=
   match c with
@@ -69,6 +70,11 @@ Fixpoint lex_go (st : nat) (buf : list ascii) (s : txt) (acc : list tok) : list 
               match st with
               | 0 => lex_go 0 [] r (TMag i :: acc)
               | _ => lex_go 0 [] r (TBad :: flush st buf acc)   (* a magnitude glued to a word / number *)
+              end
+          | N i =>
+              match st with
+              | 0 => lex_go 0 [] r (TName i :: acc)
+              | _ => lex_go 0 [] r (TBad :: flush st buf acc)   (* an identifier glued to a word / number *)
               end
           | C c =>
               let continue :=
@@ -104,7 +110,7 @@ Definition lex (s : txt) : list tok := lex_go 0 [] s [].
 
 (** ** expressions *)
 Inductive ex :=
-| ELit (s : list ascii) | EMag (i : nat) | EVar (s : list ascii)
+| ELit (s : list ascii) | EMag (i : nat) | EVar (s : list ascii) | EName (i : nat)
 | ENeg (e : ex) | EPos (e : ex)
 | EBin (op : ascii) (a b : ex)
 | ECall (f : list ascii) (args : list ex)
@@ -197,6 +203,7 @@ with pprimary (n : nat) (ts : list tok) : option (ex * list tok) :=
       match ts with
       | TNum s :: r => Some (ELit s, r)
       | TMag i :: r => Some (EMag i, r)
+      | TName i :: r => Some (EName i, r)
       | TId f :: TOp "("%char :: TOp ")"%char :: r => Some (ECall f [], r)
       | TId f :: TOp "("%char :: r =>
           match pargs n r with
